@@ -288,6 +288,9 @@ def inChild (ch : String) : Prog → Prog
   | .rng s => .rngAt [ch] s
   | .rngAt p s => .rngAt (ch :: p) s
 
+/-- the body run on the descendant scope reached by `push`-ing the names of `path` in turn (any depth) -/
+def inPath (path : List String) (p : Prog) : Prog := path.foldr inChild p
+
 /-- the streams a body's draws can resolve to: the named ones and the `'params'` fallback -/
 def rngDeps (b : Prog) : List String := if rngNames b = [] then [] else "params" :: rngNames b
 
